@@ -25,6 +25,7 @@ From Ase Require Import Proofs.EndToEnd.
 From Ase Require Import Proofs.EndToEndTotal.
 From Ase Require Import Proofs.EndToEndTilesets.
 From Ase Require Import Proofs.EndToEndCels.
+From Ase Require Import Proofs.EndToEndTotalTs.
 
 (* (a) framing inverts the serialiser: every program, either count field, any bytes after it *)
 Theorem C01_framing_serialize :
@@ -310,3 +311,63 @@ Print Assumptions C01_e2e_headline.
 Theorem C01_e2e_example_ok : sprite_ok Example.ex_prog.
 Proof. exact ex_sprite_ok. Qed.
 Print Assumptions C01_e2e_example_ok.
+
+(* ---------------- when a program WITH TILES loads (Proofs/EndToEndTotalTs.v) ----------------
+   final_tileset s k: the last tileset chunk of s with id k.
+   sprite_ok_ts s: events_ok for events_of s; every final tileset validates (it carries pixels - a tileset that only links
+   into an external file is refused by the crate - and, in indexed mode, its pixels are palette indices); every tilemap
+   layer names an id that has a tileset chunk; compute_parents succeeds; image cels validate, links point at an image
+   cel of an existing frame, a tilemap cel lies on a tilemap layer and its largest tile id is below the tile count of that
+   layer's final tileset.  sprite_ok (no tiles anywhere) is the special case. *)
+
+Theorem C01_load_serialize_total_ts :
+  forall (inflate : list Z -> Z -> zres) (s : sprite_prog) (tail : list Z),
+    wf_prog s -> inflate_ok inflate s -> sprite_ok_ts s ->
+    exists f, load inflate (serialize s ++ tail) = Ok f.
+Proof. exact load_serialize_total_ts. Qed.
+Print Assumptions C01_load_serialize_total_ts.
+
+Theorem C01_sprite_ok_special_case : forall s : sprite_prog, wf_prog s -> sprite_ok s -> sprite_ok_ts s.
+Proof. exact sprite_ok_is_sprite_ok_ts. Qed.
+Print Assumptions C01_sprite_ok_special_case.
+
+(* THE HEADLINE, tiles included: existence, the reported values, the content of every cel, the tileset under every id *)
+Theorem C01_e2e_headline_ts :
+  forall (inflate : list Z -> Z -> zres) (s : sprite_prog) (tail : list Z),
+    wf_prog s -> inflate_ok inflate s -> sprite_ok_ts s ->
+    exists f,
+      load inflate (serialize s ++ tail) = Ok f /\
+      f_width f = hf_width (sp_header s) /\ f_height f = hf_height (sp_header s) /\
+      f_nframes f = zlen (sp_frames s) /\ header_fmt (sp_header s) = Some (f_fmt f) /\
+      (forall i fr, nthz (sp_frames s) i = Some fr -> frame_duration f i = Ok (fp_duration fr)) /\
+      arr_to_list (f_layers f)
+        = mapi (fun i l => layer_with_ud l (window (rev (events_of s)) (EntLayer i))) (prog_layers s) /\
+      f_tags f = mapi (fun i t => tag_with_ud t (window (rev (events_of s)) (EntTag i))) (prog_tags s) /\
+      f_slices f = mapi (fun i sl => slice_with_ud sl (window (rev (events_of s)) (EntSlice i))) (prog_slices s) /\
+      f_ext f = fold_left bind_ext (prog_ext s) zempty /\
+      f_palette f = prog_palette s /\
+      (forall fr l,
+         match cel_at (prog_cels s) fr l with
+         | Some c => exists c', fcel_of f fr l = Some c' /\ c_data c' = c_data c /\
+                                c_ud c' = window (rev (events_of s)) (EntCel fr l) /\
+                                match c_content c with
+                                | CRaw w h rp => exists lay px, aget (f_layers f) l = Some lay /\
+                                                   validate_pixels (f_palette f) (f_fmt f) (layer_is_background lay) rp = Ok px /\
+                                                   c_content c' = CRaw w h px
+                                | CLinked o => c_content c' = CLinked o
+                                | CTilemap tm => c_content c' = CTilemap tm
+                                end
+         | None => fcel_of f fr l = None
+         end) /\
+      (forall k, 0 <= k ->
+         match final_tileset s k with
+         | Some t => exists ts, validate_tileset (f_palette f) (f_fmt f) t = Ok ts /\ zfind k (f_tilesets f) = Some ts
+         | None => zfind k (f_tilesets f) = None
+         end).
+Proof. exact e2e_headline_ts. Qed.
+Print Assumptions C01_e2e_headline_ts.
+
+(* non-vacuity: the tileset example (two tileset chunks for id 7, a tilemap layer, a tilemap cel) satisfies the conditions *)
+Theorem C01_e2e_tilesets_example_ok : sprite_ok_ts TilesetExample.ts_prog.
+Proof. exact ts_sprite_ok_ts. Qed.
+Print Assumptions C01_e2e_tilesets_example_ok.
